@@ -261,7 +261,7 @@ fn replay(path: &str, worker: bool) -> i32 {
             "e5-schedule" | "c14-deep" | "c14-grammar" | "c14-real" => props::c14::replay(r, &props::c14::oracle),
             "c13-case" => props::c13::replay(r),
             "c15-mobility" | "c15-stack" | "c15-autoplay" | "c15-real-auto" => props::c15::replay(r),
-            "c19-history" | "c19-process" | "c19-inert" | "c19-real" | "c19-large" => props::c19::replay(r),
+            "c19-history" | "c19-process" | "c19-inert" | "c19-real" | "c19-large" | "c19-clock" => props::c19::replay(r),
             "subject-panic" => Err(format!("this violation is a panic inside the engine met while exploring ({}); it has no single-case replay: re-run the check", r.get("panic").and_then(|x| x.as_str()).unwrap_or(""))),
             _ => Err(format!("unknown replay kind {:?}", kind)),
         }
